@@ -39,6 +39,14 @@ def _init():
     _W.update(corpus=corpus, nmcompare=nmcompare, nmref=nmref, semeq=semeq, pm=pm, C07=C07)
 
 
+def _distinct(names):
+    """A joint distribution needs two different etas; with fewer the operation is not applicable to this model (the
+    history is then skipped as `op-refused`, it is not a call pharmpy has to support)."""
+    if len(set(names)) < 2:
+        raise ValueError('needs two different etas')
+    return names
+
+
 def alphabet():
     pm = _W['pm']
 
@@ -98,9 +106,10 @@ def alphabet():
         'split_iiv': pm.split_joint_distribution,
         # a joint block of the first and the LAST eta: the etas in between are renumbered without their statements changing
         'join_first_last': lambda m: pm.create_joint_distribution(
-            m, [m.random_variables.etas.names[0], m.random_variables.etas.names[-1]], individual_estimates=None),
+            m, _distinct([m.random_variables.etas.names[0], m.random_variables.etas.names[-1]]),
+            individual_estimates=None),
         'join_last_two': lambda m: pm.create_joint_distribution(
-            m, list(m.random_variables.etas.names[-2:]), individual_estimates=None),
+            m, _distinct(list(m.random_variables.etas.names[-2:])), individual_estimates=None),
         'covariate': covariate, 'fix_first': fix_first, 'set_inits': inits,
         # statements that print as several lines / nodes (cat2: a run of logical IFs) next to edited neighbours
         'cov2_lin': lambda m: pm.add_covariate_effect(m, nth_param_with_eta(m, 1), cov_names(m)[0], 'lin'),
@@ -350,7 +359,10 @@ def main():
     # eta renumbering without statement changes
     renum = [(s0, h) for s0 in START[:2] for h in (('add_iiv', 'join_first_last'), ('join_first_last',),
                                                    ('add_iiv', 'join_last_two'), ('join_first_last', 'split_iiv'))]
-    cases = cases[:40] + sib + cov3 + gen + disk + renum + cases[40:]
+    renum += [('models/mox2.mod', ('join_iiv', 'join_last_two'))]
+    # a transformation that overwrites values of an existing data column: the dataset must be written with the model
+    datacol = [('models/mox_2comp.mod', ('tad',)), ('models/mox_2comp.mod', ('tad', 'add_periph'))]
+    cases = datacol + cases[:40] + sib + cov3 + gen + disk + renum + cases[40:]
     nproc = int(os.environ.get('VERIF_JOBS', 0)) or min(16, os.cpu_count() or 4)
     t0 = time.time()
     stats = dict(unsat=0, sat_confirmed=0, sat_unreplayable=0, unknown=0, unsupported=0)
